@@ -48,3 +48,41 @@ theorem tie_C17_codes :
     Generated.serverCodes.lookup "ServerCodeLog" = some 10 ∧
     Generated.serverCodes.lookup "ServerCodeTableColumns" = some 11 ∧
     Generated.serverCodes.lookup "ServerProfileEvents" = some 14 := by decide
+
+/-! ### message skeletons: field order and feature gates of every encoder and decoder, extracted
+from the function bodies on this run, equal the descriptors the theorems are about -/
+
+def skel (d : List Field) : List (String × List Int) := d.map fun f => (f.name, f.gates.map Int.ofNat)
+
+theorem tie_C17_skeleton_hellos :
+    Generated.msg_ClientHello_enc = skel clientHello ∧ Generated.msg_ClientHello_dec = skel clientHello ∧
+    Generated.msg_ServerHello_enc = skel serverHello ∧ Generated.msg_ServerHello_dec = skel serverHello := by decide
+
+theorem tie_C17_skeleton_client_info :
+    Generated.msg_ClientInfo_enc = skel clientInfo ∧ Generated.msg_ClientInfo_dec = skel clientInfo := by decide
+
+theorem tie_C17_skeleton_server_packets :
+    Generated.msg_Progress_enc = skel progress ∧ Generated.msg_Progress_dec = skel progress ∧
+    Generated.msg_Profile_enc = skel profile ∧ Generated.msg_Profile_dec = skel profile ∧
+    Generated.msg_Exception_enc = skel exception ∧ Generated.msg_Exception_dec = skel exception ∧
+    Generated.msg_TableColumns_enc = skel tableColumns ∧ Generated.msg_TableColumns_dec = skel tableColumns ∧
+    Generated.msg_ClientData_enc = skel clientData ∧ Generated.msg_ClientData_dec = skel clientData := by decide
+
+/-- the Query packet with its nested ClientInfo collapsed into one entry -/
+def querySkeleton : List (String × List Int) :=
+  [("ID", []), ("Info", [54420]), ("Settings", []), ("Secret", [54441]), ("Stage", []), ("Compression", []),
+   ("Body", []), ("Parameters", [54459])]
+
+/-- replace the `Info` entry by the fields of ClientInfo, each additionally under the entry's gates -/
+def expandInfo : List (String × List Int) → List (String × List Int)
+  | [] => []
+  | (n, g) :: rest =>
+    (if n = "Info" then (skel clientInfo).map (fun (m, h) => (m, g ++ h)) else [(n, g)]) ++ expandInfo rest
+
+/-- the decoder reads the Query fields in the order and under the gates of the descriptor; the
+encoder differs only in gating the settings loop by FeatureSettingsSerializedAsStrings (54429),
+the lower end of the supported window (below it the decoder refuses the packet) -/
+theorem tie_C17_skeleton_query :
+    Generated.msg_Query_dec = querySkeleton ∧
+    Generated.msg_Query_enc = querySkeleton.map (fun (n, g) => if n = "Settings" then (n, [54429]) else (n, g)) ∧
+    skel query = expandInfo querySkeleton := by decide
